@@ -401,6 +401,28 @@ func c16InvalidLiterals(c *rt.Ctx, sub int, k intKind, r interface{ Intn(int) in
 	for _, m := range []int64{2, 10, 16, 256, 65536} {
 		lits = append(lits, new(big.Int).Mul(k.max(), big.NewInt(m)).String(), new(big.Int).Mul(new(big.Int).Add(k.max(), one), big.NewInt(m)).String())
 	}
+	// digit patterns of the range's own length and up to two digits more: every leading digit
+	// followed by zeros, by nines, by one non-zero digit at every position, and by drawn digits
+	// (multiplication and addition steps of a hand-written parser overflow, or just do not,
+	// independently of each other)
+	for digits := len(k.max().String()); digits <= len(k.max().String())+2; digits++ {
+		for lead := byte('1'); lead <= '9'; lead++ {
+			base := string(lead) + strings.Repeat("0", digits-1)
+			lits = append(lits, base, "-"+base, string(lead)+strings.Repeat("9", digits-1))
+			for pos := 1; pos < digits; pos++ {
+				b := []byte(base)
+				b[pos] = byte('1' + (pos+int(lead))%9)
+				lits = append(lits, string(b))
+			}
+			for j := 0; j < 3; j++ {
+				b := []byte(base)
+				for pos := 1; pos < digits; pos++ {
+					b[pos] = byte('0' + r.Intn(10))
+				}
+				lits = append(lits, string(b), "-"+string(b))
+			}
+		}
+	}
 	// not JSON integers
 	lits = append(lits, "-", "01", "00", "-01", "007", "+1", "1.0", "1.5", "0.0", "1.", ".5", "1e2", "1E2", "1e0", "1e+2", "2e-1", "1.0e1", "-1.0", "-", "--1", "1-", "0x1", "1_0", "１")
 	nt := 0
